@@ -8,7 +8,7 @@ from . import common
 
 ID = 'C16'
 LEVEL = 'exploration'
-BUDGET = {'quick': (10000, 80.0), 'thorough': (120000, 1500.0)}
+BUDGET = {'quick': (7000, 80.0), 'thorough': (120000, 1500.0)}
 CHUNK = 20
 RULE = ('a DM1 sender (Dm1.start_send with cycle 50 ms..2 s) whose callback supplies, per cycle, lamp states from all 5^4 combinations and 1..400 trouble codes with '
         'SPN/FMI/OC over their full ranges (boundaries over-weighted); 1-2 receiver stacks with Dm1.subscribe and a raw listener; both data link layers so the message '
@@ -43,10 +43,19 @@ def generate(rng, tier, i):
         for s in stacks:
             s['bam_interval'] = rng.choice([0.01, 0.02, 0.1])
     hist = []
+    length = 2 + 4 * n
+    biv = stacks[0].get('bam_interval') or (0.01 if fd else 0.05)
+    if (not fd and length > 8) or (fd and length > 60):
+        dur_ms = int(((length + (59 if fd else 6)) // (60 if fd else 7) + 2) * biv * 1000)
+    else:
+        dur_ms = 0
     for _ in range(rng.choice([1, 1, 2, 3])):
         cyc = rng.choice([50, 100, 250, 1000, 2000])
         hist.append({'op': 'start', 'cycle_ms': cyc})
-        hist.append({'op': 'wait', 'ms': int(cyc * rng.choice([1.5, 2.5, 3.5]))})
+        w = int(cyc * rng.choice([1.5, 2.5, 3.5]))
+        if dur_ms >= cyc and rng.random() < 0.7:
+            w = max(w, int(dur_ms * rng.choice([1.3, 2.4])) + 2 * cyc)      # long enough for a second transfer after a busy cycle
+        hist.append({'op': 'wait', 'ms': w})
         if rng.random() < 0.8:
             hist.append({'op': 'stop'})
             hist.append({'op': 'wait', 'ms': int(cyc * rng.choice([1.2, 2.5]))})
@@ -153,6 +162,18 @@ def execute(scn, keep_log=False, hook=None):
             late = [t for (t, _m) in starts if te < t < nxt]
             if late:
                 viol.append({'clause': 'dm1-after-stop', 'rank': 2, 'msg': '%d new DM1 message(s) started after stop_send returned, the first %.3f ms later' % (len(late), (late[0] - te) / 1e6)})
+        # the cyclic transmission never dies while it is switched on: a new DM1 starts at the latest one cycle after the
+        # broadcast pair became free again (a cycle that finds the pair busy is skipped, the next one must send)
+        marks = [ts] + mine + [end]
+        for a, b in zip(marks, marks[1:]):
+            # (also for the first cycle of a segment: a transfer announced before the previous stop_send may still be finishing)
+            npk_est = int(duration / bam_iv) + 2 if duration else 0
+            allowed = int(duration * 1e9) + npk_est * (lmax + 200_000) + cyc + lmax + eps + 20_000_000
+            if b - a > allowed:
+                viol.append({'clause': 'dm1-cycles-stopped', 'rank': 2, 'feat': {'mode': mode},
+                             'msg': 'cycle %d ms, transfer time %.0f ms: no new DM1 message for %.0f ms although sending was switched on' % (
+                                 cyc // 1_000_000, duration * 1e3, (b - a) / 1e6)})
+                break
         if cyc > duration * 1e9 + 20_000_000:
             if len(mine) < expected_k:
                 viol.append({'clause': 'dm1-cycle-missing', 'rank': 3, 'feat': {'mode': mode},
